@@ -176,6 +176,15 @@ Theorem an_get_tagref_names_selected : forall l idx ty l1 g r, Good l -> tyok ty
 Proof. exact get_tagref_agrees. Qed.
 Print Assumptions an_get_tagref_names_selected.
 
+(** round 3: the harness' gettagref line (ANget_tagref, then ANid2tagref(ANselect(index))) simulates the
+    specification's XGetTagref: same failure condition (index outside 0..count-1, no session), and on success both
+    pairs are the tag/ref of one existing annotation of the requested type *)
+Theorem an_get_tagref_refines : forall h a e ty idx h' mr x' sr, Sim h a -> tyok ty ->
+  m_gettagref h ty idx = (h', mr) -> xstep (mkx a e) (XGetTagref ty idx (ref2 mr)) = (x', sr) ->
+  Sim h' (x_st x') /\ accepts sr mr.
+Proof. exact sim_gettagref. Qed.
+Print Assumptions an_get_tagref_refines.
+
 (** round 3: the two workers of the file-annotation enumeration, whose choice of static cell (Next_label_ref /
     Next_desc_ref, No_more_labels / No_more_descs), restart test, exhaustion test and start ref are regenerated from
     dfan.c, are exactly "one cursor and one end flag per kind, restarted by isfirst = 1"; [an_refines_map]'s
